@@ -1009,8 +1009,13 @@ func (c *Client) dialAndConnect(config *Config) (net.Conn, *bufio.Reader, error)
 	// ⚠️ delayed error check
 
 	verifPoint("dial.handshaked")
-	done <- struct{}{}
-	e := <-abort
+	var e error
+	select {
+	case done <- struct{}{}:
+		e = <-abort
+	case e = <-abort:
+		break // interrupted already
+	}
 	if e != nil {
 		// abort closed connection
 		return nil, nil, e
